@@ -163,8 +163,9 @@ def impl_groupby(case, t, cols, n, nans):
         return {'status': 'ok', 'obs': ['ERR', 'nogrp'], 'viol': 'groupby returned no grp column'}
     subs = list(G[grp])
     st2, UG = call(lambda: G.ungroup() if grp == 'grp' else G.ungroup(grp))
-    KT = G[list(by)]
-    obs = [ctable(KT, nans), [ctable(s, nans) for s in subs], ctable(UG, nans) if st2 == 'ok' else ['ERR', st2]]
+    # the key table, column by column (G[[...]] is not used: on /repo d[['columns']] loses a column called 'columns')
+    KT = sorted([[str(c), [V.canon(v, nans) for v in G[c]]] for c in by])
+    obs = [KT, [ctable(s, nans) for s in subs], ctable(UG, nans) if st2 == 'ok' else ['ERR', st2]]
     viol = None
     other = [c for c in cols if c not in by]
     keys = [tuple(t[c][i] for c in by) for i in range(n)]
@@ -271,12 +272,18 @@ def share_nan(cells):
     return [['nan', 0] if (v is not None and v[0] == 'nan') else v for v in cells]
 
 
-XNAMES = ['name', 'date', 'key1']
-YSUB = ['am', 'e', 'a', 'at', 'nam', 'te', 'ey']             # substrings of the x column names (an unpivot that tests `label in x` on a string drops them)
+XNAMES = ['name', 'date', 'key1', 'columns', 'data']
+YSUB = ['am', 'e', 'a', 'at', 'nam', 'te', 'ey', 'col', 'um']             # substrings of the x column names (an unpivot that tests `label in x` on a string drops them)
 def rand_pivot(rng, tier):
     q = tier == 'quick'
     x = rng.sample(XNAMES, rng.choice([1, 1, 1, 2]))
-    names = list(x) + ['yy', 'zz'] + (['w'] if rng.random() < 0.3 else [])
+    # y / z / value columns may also be called like the constructor's parameters.  NOT y = 'columns': on the unchanged /repo
+    # d[['columns']] loses the column (dictattr.__getitem__ builds type(self)(**{...})), so xyz(x, 'columns', z) raises KeyError - reported
+    yn = rng.choice(['yy', 'yy', 'yy', 'data']); zn = rng.choice(['zz', 'zz', 'zz', 'columns', 'data'])
+    if yn in x or yn == zn: yn = 'yy'
+    if zn in x: zn = 'zz'
+    wn = rng.choice(['w', 'columns', 'data'])
+    names = list(x) + [yn, zn] + ([wn] if rng.random() < 0.3 and wn not in list(x) + [yn, zn] else [])
     rng.shuffle(names)
     n = rng.choice([1, 2, 3, 4, 5, 6, 8] if q else [1, 2, 3, 4, 6, 8, 10, 12])
     agg = rng.choice([None, 'last', 'last', 'first', 'len', 'sum'])
@@ -293,22 +300,22 @@ def rand_pivot(rng, tier):
         return rng.choice([['s', rng.choice(YSUB + ['p', 'q'])], ['i', rng.choice([1, 2, 10, -3])]])
     cols = []
     for c in names:
-        if c == 'yy':
+        if c == yn:
             cells = [ycell() for _ in range(n)]
             if dense: cells = [rng.choice(cells[:2]) for _ in range(n)]
-        elif c == 'zz':
+        elif c == zn:
             cells = V.rand_column(rng, n, 'ints' if agg == 'sum' else rng.choice(['ints', 'mixed', 'nums', 'strs', 'none']))[1]
         elif c in x:
             cells = V.rand_column(rng, n, 'bin' if dense else rng.choice(['ints', 'ints', 'nums', 'strs', 'mixed', 'numsnan', 'huge']))[1]
         else:
             cells = V.rand_column(rng, n)[1]
         cols.append([c, cells])
-    case = {'kind': 'pivot', 'cols': cols, 'x': x, 'y': 'yy', 'z': 'zz', 'agg': agg}
+    case = {'kind': 'pivot', 'cols': cols, 'x': x, 'y': yn, 'z': zn, 'agg': agg}
     if len(x) == 1 and rng.random() < 0.4:
         case['xlist'] = True
     if rng.random() < 0.25: case['agglist'] = True
     if rng.random() < 0.3: case['alias'] = True
-    if any(v[0] == 'f' for v in dict(cols)['yy']):
+    if any(v[0] == 'f' for v in dict(cols)[yn]):
         case['nounpivot'] = True             # a float y stays a float column key; unpivot would return the float, not its label
     return case
 
